@@ -18,6 +18,9 @@ CANARIES = [
     {'name': 'next-allowed-in-render', 'file': 'clastic/middleware/core.py',
      'old': "    if 'next' in get_arg_names(render):", 'new': "    if 'next' in get_arg_names(render) and False:"},
 ]
+# BoundRoute.__init__ and make_middleware_chain are shared proofs: C04 owns the one-source-per-name and reserved-name clauses
+OWN = [r'check_middleware', r'make_middleware_chain/ensures\[[01]\]', r'make_middleware_chain/raises', r'BoundRoute\.__init__.*/ensures\[10\]',
+       r'BoundRoute\.__init__.*/raises', r'^C04\.']
 QUICK_CANARIES = 2
 
 
@@ -42,3 +45,7 @@ def build(pc, E, canary=None):
 def refute(pc, unknown_items):
     pc.native_search(unknown_items, 'c01_search.py',
                      {'budget': 4000 if pc.tier == 'quick' else 40000, 'seed': pc.seed}, 'c01_case.py')
+
+
+def fallback(pc):
+    return [{'script': 'c01_search.py', 'case': {'budget': 3000, 'seed': pc.seed}, 'replay_script': 'c01_case.py'}]
